@@ -5,7 +5,7 @@ import ast
 import re
 
 from .core import AnchorError, Unsupported
-from .e1_srcmodel import dotted, walk_no_nested, parent, ancestors, enclosing_stmt
+from .e1_srcmodel import dotted, walk_no_nested, parent, ancestors, enclosing_stmt, utext
 
 BULK = "pyyeti/nastran/bulk.py"
 WRITER = "pyyeti/writer.py"
@@ -139,7 +139,7 @@ def r1_templates(ctx):
         ok = head[:1] in ("*", " ", "+") and (head[0] == "*") == (pairw == 32)
         ctx.check(ok, f"wttabled1 [{label}]: continuation head `{head}` is the one the reader expects for this field width", calls[0])
         # data arguments are the k interleaved strides of t and d
-        args = [ast.unparse(a).replace(" ", "") for a in calls[0].args[2:]]
+        args = [utext(a) for a in calls[0].args[2:]]
         want = []
         for i in range(per):
             s0 = "" if i == 0 else str(i)
@@ -159,7 +159,7 @@ def r1_templates(ctx):
             "f.write(form.format(t[j],d[j]))" in ast.unparse(loop[0]).replace(" ", "")
         ctx.check(ok, f"wttabled1 [{label}]: the leftover pairs r..npts-1 are written one by one on the last line", loop[0] if loop else fn)
     last = fn.body[-1]
-    ok = ast.unparse(last).replace(" ", "").replace("'", '"') == 'f.write("ENDT\\n")'
+    ok = utext(last).replace("'", '"') == 'f.write("ENDT\\n")'
     ctx.check(ok, "wttabled1: ENDT closes the table", last)
     # ---- wtgrids templates: 8 + n*W with W validated
     fn = ctx.src.func(BULK, "wtgrids")
@@ -195,7 +195,7 @@ def _leftover_range(rows_expr, r_expr, per):
             return None
     else:
         return None
-    rt = ast.unparse(r_expr).replace(" ", "")
+    rt = utext(r_expr)
     if rt not in (f"rows*{q}", f"{q}*rows") or q != per:
         return None
     # npts - q*floor((npts+c)/q) ranges over [-c, -c + q - 1]
@@ -291,7 +291,7 @@ def _in_body(ifnode, node):
 
 def r3_reader_strides(ctx):
     fn = ctx.src.func(BULK, "rdtabled1")
-    txt = ast.unparse(fn).replace(" ", "")
+    txt = utext(fn)
     ok = "np.vstack([vec[8:-1:2],vec[9:-1:2]]).T" in txt
     ctx.check(ok, "rdtabled1: abscissae are fields 8,10,... and ordinates fields 9,11,... up to (not including) the final ENDT field", fn)
     # writer side: the first pair is the first field of the first continuation line = field index 8
@@ -303,7 +303,7 @@ def r3_reader_strides(ctx):
         ctx.check(ok, "wttabled1: the header card line holds only name + id, so the first pair starts field 8 (second line)", h)
     # rdgrids pads to 8 columns; wtgrids writes at most 8 fields after the name
     fn = ctx.src.func(BULK, "rdgrids")
-    txt = ast.unparse(fn).replace(" ", "")
+    txt = utext(fn)
     ok = "ifc<8:" in txt and "np.zeros((np.size(v,0),8-c))" in txt
     ctx.check(ok, "rdgrids pads short GRID cards to 8 columns", fn)
     # DMIG: the writer's symmetry test must match the reader's mirror (plain transpose, no conjugation)
@@ -312,12 +312,12 @@ def r3_reader_strides(ctx):
     form6 = None
     for t in tests:
         p_ = parent(t)
-        if isinstance(p_, ast.If) and any(isinstance(s, ast.Assign) and ast.unparse(s).replace(" ", "") == "form=6" for s in p_.body):
+        if isinstance(p_, ast.If) and any(isinstance(s, ast.Assign) and utext(s) == "form=6" for s in p_.body):
             form6 = t
     if form6 is None:
         ctx.error("wtdmig: symmetric (form 6) test", wd)
     else:
-        a = {ast.unparse(x).replace(" ", "") for x in form6.args[:2]}
+        a = {utext(x) for x in form6.args[:2]}
         ok = a in ({"m", "m.transpose()"}, {"m", "m.T"})
         rd = ctx.src.func(BULK, "rddmig._cards_to_df")
         mir = [s for s in ast.walk(rd) if isinstance(s, ast.Assign) and ast.unparse(s.targets[0]).replace(" ", "") == "mat[ci,ri]"]
@@ -328,7 +328,7 @@ def r3_reader_strides(ctx):
         ctx.check(ok, "wtdmig: a matrix is written as form 6 (half storage) only if it equals its plain transpose - the reader mirrors "
                       "without conjugation", form6, sorted(a))
     # wtdmig: start row of the lower triangle and the header
-    txt = ast.unparse(wd).replace(" ", "")
+    txt = utext(wd)
     ok = "start_row=colifform==6else0" in txt and "forrowinrange(start_row,m.shape[0])" in txt
     ctx.check(ok, "wtdmig: form 6 writes rows col..n-1 of each column (one of each (i,j)/(j,i) pair)", wd)
     ok = "num_str.replace('E','D')" in txt and "ifmtype&1==0" in txt
